@@ -28,12 +28,15 @@ import warnings
 
 import ipv8.messaging.anonymization.community as _com
 from ipv8.messaging.anonymization.community import TunnelCommunity
+from ipv8.messaging.anonymization.hidden_services import HiddenTunnelCommunity
 from ipv8.messaging.anonymization.payload import (
     CellPayload,
     CreatedPayload,
     CreatePayload,
     DataPayload,
     DestroyPayload,
+    EstablishRendezvousPayload,
+    LinkE2EPayload,
 )
 from ipv8.messaging.anonymization.tunnel import CIRCUIT_STATE_READY, CIRCUIT_TYPE_DATA, Circuit
 from ipv8.messaging.payload_headers import BinMemberAuthenticationPayload
@@ -76,6 +79,17 @@ _com.random = ID_PROXY
 
 class C05Community(TunnelCommunity):
     """The real community; the application callback for data arriving out of a circuit is recorded."""
+
+    def __init__(self, settings) -> None:  # noqa: ANN001
+        self.c05_log: list[tuple] = []
+        super().__init__(settings)
+
+    def on_raw_data(self, circuit, origin, data) -> None:  # noqa: ANN001
+        self.c05_log.append((circuit.circuit_id, tuple(origin), bytes(data)))
+
+
+class C05HiddenCommunity(HiddenTunnelCommunity):
+    """The real hidden-services community (rendezvous / introduction points) with the same recording callback."""
 
     def __init__(self, settings) -> None:  # noqa: ANN001
         self.c05_log: list[tuple] = []
@@ -169,11 +183,13 @@ class HarnessError(Exception):
 
 class World5:
     def __init__(self, k: int, seed: int, indices: list[int] | None = None, remove_delay: float = 0,
-                 hold_last: bool = False, no_traffic: bool = False, custom: list[tuple] | None = None) -> None:
+                 hold_last: bool = False, no_traffic: bool = False, custom: list[tuple] | None = None,
+                 defer: tuple = (), hidden: bool = False) -> None:
         """
         indices: which of CIRCUITS to use (default the first k); hold_last: the last one is planned but not built
         (see _start/adopt_last); remove_delay: settings.remove_tunnel_delay for every node; no_traffic: the setup
-        sends nothing (exit sockets stay unopened); custom: explicit [(origin, path, link ids)] instead of CIRCUITS.
+        sends nothing (exit sockets stay unopened); custom: explicit [(origin, path, link ids)] instead of CIRCUITS;
+        defer: positions of planned circuits that are built later (build_late); hidden: HiddenTunnelCommunity nodes.
         """
         self.k = k
         self.seed = seed
@@ -185,7 +201,8 @@ class World5:
             self.plans, self.used = make_plan(k, indices)
         ID_PROXY.queue = []
         ID_PROXY.fallbacks = 0
-        self.w = TunnelWorld(("c05", seed, k, indices, custom), ROLES, community_cls=C05Community, key_offset=seed % 5,
+        self.w = TunnelWorld(("c05", seed, k, indices, custom), ROLES,
+                             community_cls=C05HiddenCommunity if hidden else C05Community, key_offset=seed % 5,
                              remove_tunnel_delay=remove_delay)
         w = self.w
         self.addr = {n: node.address for n, node in w.nodes.items()}     # UDPv4Address, as a real endpoint reports
@@ -200,21 +217,23 @@ class World5:
         self._p_out = 0
         self._p_wire = 0
         self._p_app = {n: 0 for n in w.ov}
-        self.circ_obj: list = []
+        self.circ_obj: list = [None] * len(self.plans)
         self.exit_tr: list = [None] * k
         self.snap: dict[tuple, tuple] = {}
         self.extras: set = set()       # entries adopted after a reported violation (so that it is reported once)
         self.setup_violations: list[tuple] = []
-        built = self.plans[:-1] if hold_last else self.plans
-        self._saved_candidates: dict | None = None
         if hold_last:
-            self.live[-1] = False
+            defer = (*defer, len(self.plans) - 1)
+        built = [p for p in self.plans if p.index not in defer]
+        self._saved_candidates: dict | None = None
+        for i in defer:
+            self.live[i] = False
         for p in built:
-            self.circ_obj.append(self._build(p))
+            self.circ_obj[p.index] = self._build(p)
         self._take_snapshot()
         missing = [e for p in built for e in p.entries if e not in self.snap]
         surplus = [e for e in self.snap if not any(e in p.entries for p in built)]
-        if missing or surplus or ID_PROXY.fallbacks or any(c.state != CIRCUIT_STATE_READY for c in self.circ_obj):
+        if missing or surplus or ID_PROXY.fallbacks or any(self.circ_obj[p.index].state != CIRCUIT_STATE_READY for p in built):
             raise HarnessError(f"setup did not produce the planned tables: missing={missing} surplus={surplus} "
                                f"fallbacks={ID_PROXY.fallbacks} tables={w.tables()}")
         # one packet out and one reply on every circuit: opens every exit socket, records cells on every link
@@ -302,7 +321,7 @@ class World5:
         """The held circuit finished building: make it an ordinary live circuit of the reference."""
         p = self.plans[-1]
         self._restore_candidates()
-        self.circ_obj.append(c)
+        self.circ_obj[p.index] = c
         self._take_snapshot()
         self.extras = set()
         out = [("build-incomplete", f"{e[0]}.{e[1]}[{e[2]}] of the new circuit is missing") for e in p.entries
@@ -316,6 +335,31 @@ class World5:
                 out.append((f"entry-replaced:{e[1]}", f"{e[0]}.{e[1]}[{e[2]}] has hop peer {self._who(ident[2])}, "
                                                       f"planned {owner[0].entries[e]}"))
         self.live[-1] = not out
+        return out
+
+    def build_late(self, i: int) -> list[tuple] | None:
+        """
+        Build deferred circuit i now.  None = it did not become READY (e.g. the id was refused); otherwise the list of
+        discrepancies between its planned entries and the tables ([] = it is now a live circuit of the reference).
+        """
+        p = self.plans[i]
+        c = self._build(p)
+        self.injections += 1
+        if c.state != CIRCUIT_STATE_READY:
+            ID_PROXY.queue = []
+            return None
+        self.circ_obj[i] = c
+        view = self.table_view()
+        out = []
+        for e, hop in p.entries.items():
+            if e not in view:
+                out.append(("build-incomplete", f"{e[0]}.{e[1]}[{e[2]}] of the new circuit is missing"))
+            elif self._who(view[e][2]) != hop:
+                out.append((f"entry-replaced:{e[1]}", f"{e[0]}.{e[1]}[{e[2]}] has hop peer {self._who(view[e][2])}, "
+                                                      f"planned {hop}"))
+            else:
+                self.snap[e] = view[e]
+        self.live[i] = not out
         return out
 
     def _tables(self):  # noqa: ANN202
@@ -421,6 +465,10 @@ class World5:
 
     def _judge_app(self, n: str, cid: int, origin: tuple, data: bytes) -> list[tuple]:
         m = marker_of(data)
+        if m is not None and m.startswith(MARK + b"/F/"):
+            i = int(m.split(b"/")[2])
+            return [("misrouted-data", f"{m!r} (sent into circuit {i} by {self.plans[i].origin}) was handed to the "
+                                       f"application at {n} labelled circuit id {cid}")]
         if m is None or not m.startswith(MARK + b"/B/"):
             return [("forged-data-delivered", f"{n} handed {m or data[:40]!r} (circuit id {cid}, origin {origin}) "
                                               "to the application")]
@@ -954,8 +1002,8 @@ HB_NEW = [5, 0, 4]                         # the circuit under construction: 1, 
 CL_WORLDS = [([0, 1, 2], 0), ([0, 4], 1), ([0, 5], 1)]     # (circuits, position of the one being closed)
 
 
-def family_cases() -> list[tuple]:
-    cases: list[tuple] = []
+def family_cases(thorough: bool = False) -> list[tuple]:
+    cases: list[tuple] = _hidden_cases(thorough)
     for base in HB_BASES:
         for new in HB_NEW:
             h = len(CIRCUITS[new][1])
@@ -991,7 +1039,7 @@ def family_cases() -> list[tuple]:
 def run_family_case(seed: int, case: tuple) -> tuple[list[tuple], str, bytes, int]:
     """One execution from scratch. Returns ([(key, what)], status, abstract digest, injections)."""
     fn = {"halfbuilt": _run_halfbuilt, "closing": _run_closing, "simfirst": _run_simfirst, "nested": _run_nested,
-          "reuse": _run_reuse}[case[0]]
+          "reuse": _run_reuse, "hidden": _run_hidden}[case[0]]
     return fn(seed, *case[1:])
 
 
@@ -1256,6 +1304,101 @@ def _run_reuse(seed: int, shape: int, hold: str, t_reuse: float,
         world.close()
 
 
+# -- sixth family: hidden services - rendezvous cookies that outlive their circuit ------------------------------------
+
+HS_REMOVALS = ["origin-destroy", "exit-remove", "inactivity"]
+
+
+def _hidden_cases(thorough: bool) -> list[tuple]:
+    cases = []
+    for ncook in ((1, 2, 3) if thorough else (1, 2)):
+        for link in range(ncook):
+            for linker in ("ADV", "O1"):
+                for w_before in (0, 1):
+                    cases.append(("hidden", ncook, link, "live", linker, w_before, 0))      # control: a real link
+                    for removal in HS_REMOVALS:
+                        for reuse in (0, 1):
+                            cases.append(("hidden", ncook, link, removal, linker, w_before, reuse))
+    return cases
+
+
+def _run_hidden(seed: int, ncook: int, link: int, removal: str, linker: str, w_before: int,
+                reuse: int) -> tuple[list[tuple], str, bytes, int]:
+    """
+    X = O1 -1-> X1 registers ncook rendezvous cookies at X1; K = O2 -5-> R2 -6-> X1 is a bystander; X is removed;
+    (reuse) 61 s later Z = O2 -1-> X1 takes the same id; W = <linker> -7-> X1 sends link-e2e(cookie[link]).
+    """
+    plans = [("O1", ("X1",), (1,)), ("O2", ("R2", "X1"), (5, 6)), ("O2", ("X1",), (1,)), (linker, ("X1",), (7,))]
+    world = World5(4, seed, custom=plans, defer=(2, 3), hidden=True, no_traffic=True)
+    try:
+        w = world.w
+        x, z, wp = world.plans[0], world.plans[2], world.plans[3]
+        rendezvous = w.ov["X1"]
+        cookies = [bytes([0x41 + i]) * 20 for i in range(ncook)]
+        label = "HS/control" if removal == "live" else "HS"
+        viol: list[tuple] = []
+        for i, cookie in enumerate(cookies):
+            w.nodes["O1"].run(w.ov["O1"].send_cell, world.circ_obj[0].hop.address,
+                              EstablishRendezvousPayload(1, 100 + i, cookie))
+            w.flush()
+            world.injections += 1
+        viol += _labelled(world.check(), "HS/register")
+        if set(rendezvous.rendezvous_point_for) != set(cookies):
+            raise HarnessError(f"hidden: X1 registered {len(rendezvous.rendezvous_point_for)} of {ncook} cookies")
+        if w_before and world.build_late(3) != []:
+            raise HarnessError("hidden: the linker's circuit could not be built")
+        if removal == "origin-destroy":
+            viol += _labelled(world._valid_destroy(x, "origin-api"), label)
+        elif removal == "exit-remove":
+            viol += _labelled(world._valid_destroy(x, "exit-api"), label)
+        elif removal == "inactivity":
+            world.live[0] = False
+            w.nodes["O1"].run(w.ov["O1"].remove_circuit, 1, "c05")          # silently: no destroy is sent
+            w.run_for(30.0)
+            viol += _labelled(world.check(), label)
+        if removal != "live" and world.holds("X1", 1):
+            raise HarnessError(f"hidden: X1 still routes id 1 after {removal}")
+        status = "stale-link"
+        if reuse:
+            viol += _labelled(world._wait(), label)
+            built = world.build_late(2)
+            if built is None:
+                status = "reuse-refused"
+            else:
+                status = "stale-link-after-reuse"
+                viol += _labelled(built, label)
+        if not w_before and world.build_late(3) != []:
+            raise HarnessError("hidden: the linker's circuit could not be built")
+        if viol:
+            return viol, "violated", world.digest(), world.injections
+        if removal == "live":
+            # both parties asked for it: X and W may be joined, nothing else may change
+            world.live[0] = world.live[3] = False
+            world.extras |= {("X1", "relay_from_to", 1), ("X1", "relay_from_to", 7)}
+        before = world.table_view()
+        w.nodes[linker].run(w.ov[linker].send_cell, world.circ_obj[3].hop.address, LinkE2EPayload(7, 200, cookies[link]))
+        w.flush()
+        world.injections += 1
+        where = (f"{linker} sent link-e2e(cookie {link + 1} of {ncook}) over its circuit 7 to X1 "
+                 f"(the cookies were registered on O1's circuit 1, {removal}"
+                 f"{', id 1 given to O2 61 s later' if status == 'stale-link-after-reuse' else ''}; "
+                 f"linker's circuit built {'before' if w_before else 'after'})")
+        found = world.check()
+        if removal == "live":
+            after = world.table_view()
+            if ("X1", "relay_from_to", 1) in after and ("X1", "relay_from_to", 7) in after:
+                status = "linked"
+            else:
+                status = "link-refused"
+                found += World5.table_diff(before, after)
+        viol += _labelled([(o, f"{d}: {where}") for o, d in found], label)
+        if not viol:
+            viol += [(k, f"{what}: {where}") for k, what in _traffic(world, label)]
+        return viol, status, world.digest(), world.injections
+    finally:
+        world.close()
+
+
 _FAMILY_SEED = 0
 
 
@@ -1263,10 +1406,10 @@ def _family_work(chunk: list) -> list:
     return [(case, *run_family_case(_FAMILY_SEED, case)) for case in chunk]
 
 
-def explore_family(seed: int, jobs: int) -> dict:
+def explore_family(seed: int, jobs: int, thorough: bool = False) -> dict:
     global _FAMILY_SEED
     _FAMILY_SEED = seed
-    cases = family_cases()
+    cases = family_cases(thorough)
     res = core.pmap(_family_work, cases, jobs, chunk=4)
     out = {"cases": len(cases), "status": {}, "states": set(), "injections": 0, "viol": {}, "samples": []}
     for case, viol, status, dg, inj in sorted(res, key=lambda r: repr(r[0])):
@@ -1348,7 +1491,7 @@ def _run(ctx: core.Ctx) -> core.Report:
         for hist in ([acc.varied[3]] if acc.varied else []) + [it[1] for it in (acc.first, acc.last) if it]:
             if {"k": k, "history": hist} not in samples:
                 samples.append({"k": k, "history": hist})
-    fam = explore_family(seed, ctx.jobs)
+    fam = explore_family(seed, ctx.jobs, ctx.thorough)
     for key, (what, case) in sorted(fam["viol"].items()):
         rp = {"family": case[0], "seed": seed, "case": case}
         if key not in [v[0] for v in run_family_case(seed, tuple(_untuple(case)))[0]]:
@@ -1383,6 +1526,10 @@ def _run(ctx: core.Ctx) -> core.Report:
             "nested": "a datagram arrives from outside on circuit A's exit socket whose payload is a tunnel DATA "
                       "message naming the first id of every circuit (own and others), from the named circuit's first "
                       "hop (exact address / same IP other port) and from an unrelated address",
+            "hidden": "HiddenTunnelCommunity nodes: O1's circuit registers 1..2 (thorough ..3) rendezvous cookies at X1, is "
+                      "removed (destroy by originator / by the exit / silently + inactivity), optionally its id is "
+                      "given to O2 61 s later, then ADV or O1 sends link-e2e(each cookie) over its own circuit (built "
+                      "before or after); control: the same link while the circuit is alive really joins the two",
             "reuse": "O1 -1-> X1 -2-> X2 is built up to X1's create for X2 or X2's created (held back), O1 destroys "
                      "it, O2 asks X1 for id 1 (1-hop and 2-hop) 0/30/61 s later, or 0/6 s later when O1's extend had "
                      "arrived 55 s late; then the held datagram is delivered"},
